@@ -15,6 +15,18 @@ Theorem C12_header_spans_wellformed : header_spans_wellformed_stmt.
 Proof. exact header_spans_wellformed. Qed.
 Print Assumptions C12_header_spans_wellformed.
 
+Theorem C12_header_depth_bounded : header_depth_bounded_stmt.
+Proof. exact header_depth_bounded. Qed.
+Print Assumptions C12_header_depth_bounded.
+
+Theorem C12_header_depth_unbounded_refuted : header_depth_unbounded_refuted_stmt.
+Proof. exact header_depth_unbounded_refuted. Qed.
+Print Assumptions C12_header_depth_unbounded_refuted.
+
+Theorem C12_header_depth_bound_tight : header_depth_bound_tight_stmt.
+Proof. exact header_depth_bound_tight. Qed.
+Print Assumptions C12_header_depth_bound_tight.
+
 Theorem C12_header_total_refuted : header_total_refuted_stmt.
 Proof. exact header_total_refuted. Qed.
 Print Assumptions C12_header_total_refuted.
